@@ -18,12 +18,17 @@ import (
 	"github.com/go-git/go-git/v5/plumbing/object"
 
 	"go.uber.org/thriftrw/internal/zzsim/progen"
+	"go.uber.org/thriftrw/internal/zzsim/simlog"
 	"go.uber.org/thriftrw/internal/zzsim/simrt"
 	"go.uber.org/thriftrw/internal/zzsim/world"
 )
 
 // TBRun is cmd/thriftbreak's run (set by that package's TestMain).
 var TBRun func(args []string) error
+
+// TBMain is cmd/thriftbreak's main (set by that package's TestMain): what a shell sees of the
+// tool is main's exit status, not run's error.
+var TBMain func()
 
 type reported struct {
 	File    string
@@ -251,6 +256,12 @@ type tbOutcome struct {
 	out    string
 	panic  string
 	parsed []*reported
+	// the same command line through main(): exit status, output, a panic that is not an exit
+	mainRan      bool
+	mainStatus   int
+	mainExplicit bool // main ended through os.Exit
+	mainOut      string
+	mainPanic    string
 }
 
 func runTB(args []string, capture string) (o tbOutcome) {
@@ -272,6 +283,45 @@ func runTB(args []string, capture string) (o tbOutcome) {
 	f.Close()
 	data, _ := os.ReadFile(capture)
 	o.out = string(data)
+	if TBMain == nil || o.panic != "" {
+		return o
+	}
+	// once more as a process would: os.Args, main(), log.Fatalf as the exit with status 1
+	f, err = os.Create(capture)
+	if err != nil {
+		panic(err)
+	}
+	savedArgs := os.Args
+	os.Args = append([]string{"thriftbreak"}, args...)
+	os.Stdout = f
+	simlog.CatchFatal = true
+	simrt.CatchExit = true
+	func() {
+		defer func() {
+			if r := recover(); r != nil {
+				if _, ok := r.(simlog.FatalExit); ok {
+					o.mainStatus = 1
+					return
+				}
+				if e, ok := r.(simrt.ExitStatus); ok {
+					// what the parent process sees of the status: its low eight bits
+					o.mainStatus = e.Status & 0xff
+					o.mainExplicit = true
+					return
+				}
+				o.mainPanic = fmt.Sprintf("%v\n%s", r, debug.Stack())
+			}
+		}()
+		TBMain()
+	}()
+	simlog.CatchFatal = false
+	simrt.CatchExit = false
+	os.Stdout = saved
+	os.Args = savedArgs
+	f.Close()
+	data, _ = os.ReadFile(capture)
+	o.mainOut = string(data)
+	o.mainRan = true
 	return o
 }
 
@@ -666,6 +716,18 @@ func RunC20(cfg simrt.Config, o world.Opts) *world.Result {
 			}
 			if (got.err != nil) != (len(got.parsed) > 0) {
 				res.Failf("C20/exit-status", "%s: error=%v but %d diagnostics were printed", desc, got.err, len(got.parsed))
+			}
+			// what a caller of the executable sees: main()'s exit status for the same command line
+			if got.mainRan {
+				res.Count("c20.main-calls", 1)
+				if got.mainStatus != 0 {
+					res.Count("c20.main-exits-nonzero", 1)
+				}
+				if got.mainPanic != "" {
+					res.Failf("C20/panic", "%s: thriftbreak's main() panicked: %s", desc, first80(got.mainPanic))
+				} else if (got.mainStatus != 0) != (len(expected) > 0) {
+					res.Failf("C20/exit-status", "%s: main() ended with exit status %d, the pair has %d documented breaking changes (run() returned error=%v)", desc, got.mainStatus, len(expected), got.err)
+				}
 			}
 			if len(res.Failures) > 0 {
 				return
